@@ -76,15 +76,23 @@ def stalled_histories(r, n):
         ops = []
         users = ["alice", "bob", "carol"]
         for k, u in enumerate(users, start=1):
-            ops.append({"t": "open", "k": k, "duplex": 256 if u == "carol" else (1 << 20)})
+            ops.append({"t": "open", "k": k, "duplex": r.choice([8, 24, 70, 256]) if u == "carol" else (1 << 20)})
             ops.append({"t": "send", "k": k, "bytes": sl.frame("CONNECT", [("version", 1), ("heartbeat_interval", 0)]).hex()})
             ops.append({"t": "send", "k": k, "bytes": sl.frame("IDENTIFY", [("username", u)]).hex()})
             ops.append({"t": "send", "k": k, "bytes": sl.frame("JOIN", [("id", 10 + k), ("channel", "!c1@localhost")]).hex()})
         ops.append({"t": "stall", "k": 3})
-        for i in range(r.randint(12, 30)):
-            pl = bytes(r.randrange(256) for _ in range(r.choice([100, 200])))
-            ops.append({"t": "send", "k": 1, "bytes": sl.frame("BROADCAST", [("id", 100 + i), ("channel", "!c1@localhost"), ("length", len(pl))], pl).hex(),
-                        "bcast": pl.hex()})
+        # enough traffic on the healthy connections to cycle the whole shared message-buffer pool
+        # (2*max_conns + 128 buffers) while the stalled peer's write is pending
+        cfg["max_conns"] = 4
+        for i in range(r.randint(90, 140)):
+            # headers of different lengths and publishers, so a recycled header buffer cannot go unnoticed
+            pl = bytes(r.randrange(256) for _ in range(r.choice([5, 37, 100, 200, 1000])))
+            pub = r.choice([1, 1, 2])
+            ops.append({"t": "send", "k": pub, "bytes": sl.frame("BROADCAST", [("id", 100 + i), ("channel", "!c1@localhost"), ("length", len(pl))], pl).hex(),
+                        "bcast": pl.hex(), "pub": pub, "settle_ms": 1})
+        # the stalled peer starts reading again: whatever it gets must be whole frames, in order, of what was queued for it
+        ops.append({"t": "stall", "k": 3, "on": False, "resume": True})
+        ops.append({"t": "advance", "ms": 50, "resume": True})
         cases.append({"cfg": cfg, "ops": ops})
     return cases
 
@@ -98,8 +106,9 @@ def check_stalled(case, ob, violations, known_seen, known):
         if "bcast" not in op:
             continue
         pl = op["bcast"]
-        a = o["conns"].get("1", {"frames": []})["frames"]
-        b = o["conns"].get("2", {"frames": []})["frames"]
+        pub = op.get("pub", 1)
+        a = o["conns"].get(str(pub), {"frames": []})["frames"]
+        b = o["conns"].get(str(3 - pub), {"frames": []})["frames"]
         if not any(sl.frame_name(f) == "BROADCAST_ACK" for f in a if "undecodable" not in f):
             violations.append(("publisher's BROADCAST_ACK missing or delayed while another member is stalled", case))
             return
@@ -107,9 +116,36 @@ def check_stalled(case, ob, violations, known_seen, known):
         if len(got) != 1 or got[0]["payload"] != pl:
             violations.append(("a healthy member missed (or got a damaged) MESSAGE while another member is stalled", case))
             return
+    # what the stalled peer receives once it reads again: MESSAGE frames of the broadcasts, in order, each payload intact
+    sent = [op["bcast"] for op in case["ops"] if "bcast" in op]
+    got = []
+    for op, o in zip(case["ops"], ob["ops"]):
+        if not op.get("resume"):
+            continue
+        c3 = o["conns"].get("3")
+        if not c3:
+            continue
+        if c3.get("leftover"):
+            violations.append(("the formerly stalled peer received bytes that are not whole frames", case))
+            return
+        for f in c3["frames"]:
+            if "undecodable" in f:
+                violations.append(("the formerly stalled peer received an undecodable line (frames not intact)", case))
+                return
+            n = sl.frame_name(f)
+            if n == "MESSAGE":
+                got.append(f["payload"])
+            elif n == "ERROR":
+                pass
+            else:
+                violations.append((f"the formerly stalled peer received a {n} frame that was never queued for it (another connection's buffer?)", case))
+                return
+    it = iter(sent)
+    if not all(any(g == x for x in it) for g in got):
+        violations.append(("the formerly stalled peer received MESSAGE payloads that are not an in-order subsequence of the broadcasts", case))
+        return
     # the stalled peer should have been disconnected (OUTBOUND_QUEUE_FULL) once its queue filled up
-    last = ob["ops"][-1]
-    if "3" not in {k for o in ob["ops"] for k in o.get("ended", {})}:
+    if "3" not in {k for op, o in zip(case["ops"], ob["ops"]) if not op.get("resume") for k in o.get("ended", {})}:
         if "K15a" in known:
             known_seen.setdefault("K15a", case)
         else:
@@ -215,7 +251,7 @@ def run(tier, replay=None):
     else:
         cases = gen_cases(r, 600 if thorough else 90, thorough)
         search(cases, "q")
-        st = stalled_histories(r, 12 if thorough else 3)
+        st = stalled_histories(r, 24 if thorough else 6)
         sobs, hout = sl.run_histories(st, "debug", tag="stall", timeout=900)
         if sobs is None:
             violations.append(("stalled-receiver scenario hung the whole server (other connections starved): " + hout[-300:], st[0]))
